@@ -2,8 +2,11 @@
 """
 This module provides the Base Property class.
 """
+import csv
 import uuid
 import warnings
+
+from io import StringIO
 
 from . import base
 from . import dtypes
@@ -370,7 +373,12 @@ class BaseProperty(base.BaseObject):
         """
         if isinstance(new_value, str):
             if new_value and new_value[0] == "[" and new_value[-1] == "]":
-                new_value = list(map(str.strip, new_value[1:-1].split(",")))
+                if '"' in new_value:
+                    # Split at the commas, but respect values quoted like csv fields.
+                    reader = csv.reader(StringIO(new_value[1:-1]), skipinitialspace=True)
+                    new_value = [val.strip() for row in reader for val in row] or [""]
+                else:
+                    new_value = list(map(str.strip, new_value[1:-1].split(",")))
             else:
                 new_value = [new_value]
         elif isinstance(new_value, dict):
